@@ -311,6 +311,21 @@ func par2Cycle(r *Run, o cycleOpts) {
 		}
 		r.Probe("late-failure-scenario")
 		kinds = append(kinds, "late-failure")
+	} else if o.hostileRecovery && len(w.Files[0].Data) > 16384 && t.Bool(1, 4, "older-generation-volumes") {
+		// the index is today's, the volume files are those of an earlier
+		// generation of the same set id; the file that differs is lost or
+		// damaged after its first 16 KiB - whatever Repair reconstructs
+		// from those blocks is not what the index protects
+		hostile = w.hostileRecoveryKind(r, "stale-generation-all")
+		if t.Bool(1, 2, "lose-the-file") {
+			w.Disk.Remove(w.Path(0))
+			kinds = append(kinds, "delete")
+		} else {
+			cur := append([]byte(nil), w.Files[0].Data...)
+			cur[16384+t.Draw(len(cur)-16384, "late-offset")] ^= byte(1 + t.Draw(255, "xor"))
+			w.Disk.Put(w.Path(0), cur)
+			kinds = append(kinds, "flip")
+		}
 	} else if o.hostileRecovery && t.Bool(1, 2, "hostile-recovery") {
 		hostile = w.hostileRecovery(r)
 	} else if prop == "C03" && t.Bool(1, 6, "damaged-recovery-file") {
@@ -558,6 +573,12 @@ func (w *World) grow16k(r *Run) {
 	t.Begin("grow16k")
 	defer t.End()
 	size := 16385 + t.Draw(24000, "size")
+	if t.Bool(1, 4, "ends-just-above-16k") {
+		// the file ends within a slice's length of the 16 KiB mark (inside
+		// the slice that straddles it, or in the next one)
+		size = 16385 + t.Draw(w.S+w.S/2, "just-above")
+		r.Probe("file-ends-just-above-16KiB")
+	}
 	data := expandContent(ckRandom, t.Draw64(0, "cseed"), size, w.S)
 	w.N += (size+w.S-1)/w.S - (len(w.Files[0].Data)+w.S-1)/w.S
 	w.Files[0].Data = data
